@@ -299,9 +299,8 @@ def resolveRef (bScheme bHost bPath bQuery : Str) (bFq : Bool) (rScheme rHost rP
   else if !rHost.isEmpty then (bScheme, rHost, rPath, rQuery, rFq)
   else if rPath.isEmpty then
     if rQuery.isEmpty && !rFq then (bScheme, bHost, bPath, bQuery, bFq) else (bScheme, bHost, bPath, rQuery, rFq)
-  else match rPath with
-    | '/' :: _ => (bScheme, bHost, rPath, rQuery, rFq)
-    | _ => (bScheme, bHost, mergePaths (rooted bHost bPath) rPath, rQuery, rFq)
+  else if rPath.head? = some '/' then (bScheme, bHost, rPath, rQuery, rFq)
+  else (bScheme, bHost, mergePaths (rooted bHost bPath) rPath, rQuery, rFq)
 
 /-- same origin: scheme, host and effective port -/
 def sameOrigin (s1 h1 s2 h2 : Str) : Bool :=
